@@ -4,7 +4,7 @@
 set -u
 pid="$1"; d="$(realpath "$2")"; wt="/tmp/try-$pid-$$"
 git -C /repo worktree add -q "$wt" HEAD || exit 2
-trap 'git -C /repo worktree remove --force "$wt"' EXIT
+trap 'git -C /repo worktree remove --force "$wt"; rm -rf "/tmp/try-evidence-$pid-$$"' EXIT
 cd "$wt"
 PYTHONPATH="$wt/src" /venv/bin/python "$d/demo.py" >/dev/null 2>&1; echo "demo on HEAD: exit $? (want 0)"
 git apply "$d/patch.diff" || { echo "PATCH DOES NOT APPLY"; exit 2; }
@@ -13,5 +13,5 @@ if [ "${SUITE:-0}" = 1 ]; then
   PYTHONPATH="$wt/src" /venv/bin/python -m pytest -q -p no:cacheprovider -n 8 tests/unit_tests tests/contract_tests -q 2>&1 | tail -2
 fi
 cd /verif
-VERIF_REPO="$wt" VERIF_SKIP_MAKE=1 ./check "$pid" ${TIER:+--tier $TIER} 2>&1 | grep -A1 -E "^(VIOLATION|OK|KNOWN-FINDING|INTERNAL-ERROR)" | cut -c1-400 | head -14
+VERIF_EVIDENCE_DIR="/tmp/try-evidence-$pid-$$" VERIF_REPO="$wt" VERIF_SKIP_MAKE=1 ./check "$pid" ${TIER:+--tier $TIER} 2>&1 | grep -A1 -E "^(VIOLATION|OK|KNOWN-FINDING|INTERNAL-ERROR)" | cut -c1-400 | head -14
 echo "check exit: ${PIPESTATUS[0]}"
